@@ -149,7 +149,8 @@ class CustomGateDef:
         """Return a new tree with parameter indices replaced with values."""
         if isinstance(exp, lark.Token):
             if exp.type == 'PARAM_IDX':
-                return lark.Token('REAL', params[int(exp)])
+                value = float(params[int(exp)])
+                return lark.Token('REAL', f'({value!r})')
             else:
                 return exp
         children = [self.replace_param_indices(c, params) for c in exp.children]
